@@ -310,13 +310,17 @@ func genWorkload(r *core.Rand, av avoidSet, nclients, totalOps int, listsOK bool
 // server itself disagrees with the reference: such defects belong to the
 // data-type properties, not to the cluster properties.
 func prescreen(sc *Scenario) int {
-	cfg := &config.Config{ShardNum: 8, Databases: 1, ChanBufferSize: 10, LogLevel: "panic"}
+	ndb := sc.Knobs.Databases
+	if ndb < 1 {
+		ndb = 1
+	}
+	cfg := &config.Config{ShardNum: 8, Databases: ndb, ChanBufferSize: 10, LogLevel: "panic"}
 	config.Configures = cfg
 	registerCommands()
 	dropped := 0
 	for pass := 0; pass < 40; pass++ {
 		mgr := server.NewManager(cfg)
-		m := refmodel.New(1)
+		m := refmodel.New(ndb)
 		now := time.Date(2000, 1, 1, 0, 0, 0, 0, time.UTC)
 		bad := map[[2]int]bool{}
 		pos := make([]int, len(sc.Clients))
@@ -328,6 +332,10 @@ func prescreen(sc *Scenario) int {
 				}
 				progress = true
 				a := sc.Clients[ci].Cmds[pos[ci]].Args
+				if isMgmt(a) {
+					pos[ci]++ // management commands are not data commands: kept as they are
+					continue
+				}
 				ok := false
 				func() {
 					defer func() { recover() }()
@@ -444,6 +452,15 @@ func genC07(rng *core.Rand, env *core.Env, run int) *Scenario {
 		}
 	}
 	sc.Clients = genWorkload(r, av, nclients, total, true, directedKnobs(sc))
+	// management commands in the shapes a careless operator produces: in the
+	// configurations that change the membership anyway, and in a share of the rest
+	if sc.Faults.Directed == "" && (sc.Variant == "rconf" || r.Bool(0.12)) {
+		if r.Bool(0.35) {
+			k.Databases = 2 + r.Intn(2)
+		}
+		quiet := sc.Variant == "rconf" || sc.Variant == "fault-free" || sc.Variant == "snapshots"
+		sprinkleMgmt(r, sc, 1+r.Intn(4), quiet && len(sc.Faults.Kinds) == 0 && r.Bool(0.3))
+	}
 	prescreen(sc)
 	return sc
 }
